@@ -87,7 +87,27 @@ def check_mode_preserved(ctx, R):
          fmt_path(fb) if fb else None)
 
 
+def _is_none_key(e, X):
+    return e.kind == 'COND' and isinstance(e.a, str) and e.a.replace(' ', '') == 'self.%sisNone' % X
+
+
+def _same_key(e, X, param):
+    """COND comparing the bound value with the argument; returns True (means equal), False (means different) or None"""
+    if e.kind != 'COND' or not isinstance(e.a, str):
+        return None
+    k = e.a.replace(' ', '')
+    if k in ('self.%sis%s' % (X, param), '%sisself.%s' % (param, X), 'self.%s==%s' % (X, param), '%s==self.%s' % (param, X)):
+        return bool(e.b)
+    if k in ('self.%sisnot%s' % (X, param), 'self.%s!=%s' % (X, param), '%s!=self.%s' % (param, X), '%sisnotself.%s' % (param, X)):
+        return not bool(e.b)
+    return None
+
+
 def check_inform(ctx, R):
+    """decided on event paths (helper / generator extraction, branch order and early returns are transparent):
+      _inform_X:  bound & different -> raise;  bound & same -> nothing;  unbound -> bind the argument and call _inform_X(arg)
+                  on every truthy upstream and every truthy downstream, conditional on nothing else
+      _set_X:     explicit value -> _inform_X(value);  None -> the X of an upstream (symbolic normal form)"""
     M = ctx.model
     for X in ('loop', 'asynchronous'):
         fn = M.stream.methods.get('_inform_' + X)
@@ -95,67 +115,120 @@ def check_inform(ctx, R):
             raise AnalysisError('anchor vanished: Stream._inform_' + X)
         con = ctx.construct(fn)
         param = fn.params()[1]
-        raises = [n for n in own_nodes(fn.node) if isinstance(n, ast.Raise)]
-        ok_raise = False
-        for r in raises:
-            guards = [g for g in own_nodes(fn.node) if isinstance(g, ast.If) and any(x is r for s in g.body for x in ast.walk(s))]
-            tests = ' && '.join(src(g.test) for g in guards).replace(' ', '')
-            if ('self.%sisnotNone' % X) in tests and (('self.%sisnot%s' % (X, param)) in tests or ('self.%s!=%s' % (X, param)) in tests):
-                ok_raise = True
-        R.ob('CONFLICT-RAISES', con, 'raise', ok_raise,
-             'no raise on the branch "already bound and different": a conflicting %s would silently split the pipeline' % X,
-             ctx.where(fn, fn.node.lineno))
-        # binding branch: assigns and recurses over both directions
-        assigns = [n for n in own_nodes(fn.node) if isinstance(n, ast.Assign) and self_field(n.targets[0]) == X
-                   and isinstance(n.value, ast.Name) and n.value.id == param]
-        dirs = set()
-        for l in own_nodes(fn.node):
-            if isinstance(l, ast.For) and self_field(l.iter) in ('upstreams', 'downstreams'):
-                var = l.target.id if isinstance(l.target, ast.Name) else None
-                for c in ast.walk(l):
-                    if isinstance(c, ast.Call) and isinstance(c.func, ast.Attribute) and c.func.attr == '_inform_' + X \
-                            and isinstance(c.func.value, ast.Name) and c.func.value.id == var and c.args \
-                            and isinstance(c.args[0], ast.Name) and c.args[0].id == param:
-                        # the call may only be conditional on the neighbour existing (weak references)
-                        guards = [g for g in ast.walk(l) if isinstance(g, ast.If) and any(x is c for b in g.body for x in ast.walk(b))]
-                        if all(src(g.test).replace(' ', '') in (var, var + 'isnotNone') for g in guards):
-                            dirs.add(self_field(l.iter))
-        R.ob('CONFLICT-RAISES', con, 'bind-and-percolate', bool(assigns) and dirs == {'upstreams', 'downstreams'},
-             '_inform_%s does not bind the value and percolate it to both upstreams and downstreams (found %s)' % (X, sorted(dirs)),
-             ctx.where(fn, fn.node.lineno))
-        # the conflict branch must not re-bind
-        bad = None
-        for st, status in ctx.paths(fn, M.stream):
+        paths = list(ctx.paths(fn, M.stream))
+        n_conf, bad_raise = 0, None
+        bad_bind, n_bind = None, 0
+        bad_rebind = None
+        dirs_seen = set()
+        for st, status in paths:
             evs = st.events
-            if any(e.kind == 'COND' and e.b is True and e.a.replace(' ', '') == 'self.%sisNone' % X for e in evs):
-                continue
-            if any(e.kind == 'COND' and e.b is False and e.a.replace(' ', '') == 'self.%sisNone' % X for e in evs):
+            none = next((e.b for e in evs if _is_none_key(e, X)), None)
+            same = next((_same_key(e, X, param) for e in evs if _same_key(e, X, param) is not None), None)
+            if none is None:
+                raise AnalysisError('%s: a path does not test whether self.%s is bound (unrecognised spelling)' % (con, X))
+            if not none:
                 if any(e.kind == 'ST' and e.a == X for e in evs):
-                    bad = evs
-        R.ob('CONFLICT-RAISES', con, 'no-rebind', bad is None, 'an already bound %s is overwritten' % X,
-             ctx.where(fn, fn.node.lineno), fmt_path(bad) if bad else None)
-        sfn = M.stream.methods.get('_set_' + X)
-        if sfn is None:
-            raise AnalysisError('anchor vanished: Stream._set_' + X)
-        sp = sfn.params()[1]
-        scon = ctx.construct(sfn)
-        informs = [c for c in own_nodes(sfn.node) if isinstance(c, ast.Call) and isinstance(c.func, ast.Attribute)
-                   and c.func.attr == '_inform_' + X and c.args and isinstance(c.args[0], ast.Name) and c.args[0].id == sp]
-        g_ok = False
-        for c in informs:
-            guards = [g for g in own_nodes(sfn.node) if isinstance(g, ast.If) and any(x is c for s in g.body for x in ast.walk(s))]
-            if any(src(g.test).replace(' ', '') == '%sisnotNone' % sp for g in guards):
-                g_ok = True
-        inherit = False
-        for l in own_nodes(sfn.node):
-            if isinstance(l, ast.For) and self_field(l.iter) == 'upstreams':
-                var = l.target.id if isinstance(l.target, ast.Name) else None
-                for a in ast.walk(l):
-                    if isinstance(a, ast.Assign) and self_field(a.targets[0]) == X and src(a.value) == '%s.%s' % (var, X):
-                        inherit = True
-        R.ob('INHERIT', scon, X, g_ok and inherit,
-             '_set_%s does not route an explicit value through _inform_%s and otherwise inherit from an upstream' % (X, X),
-             ctx.where(sfn, sfn.node.lineno))
+                    bad_rebind = evs
+                if same is False:
+                    n_conf += 1
+                    if status != 'raise' or not any(e.kind == 'RAISE' for e in evs):
+                        bad_raise = evs
+                continue
+            # unbound: bind and percolate
+            n_bind += 1
+            sts = [e for e in evs if e.kind == 'ST' and e.a == X]
+            if not sts or not all(('p:' + param) in (e.b or ()) for e in sts):
+                bad_bind = bad_bind or (evs, 'the argument is not stored in self.%s' % X)
+            # iteration segments over upstreams / downstreams
+            iters = [i for i, e in enumerate(evs) if e.kind == 'ITER']
+            for i in iters:
+                fld = (evs[i].x or {}).get('iter_field')
+                if fld not in ('upstreams', 'downstreams'):
+                    continue
+                node = evs[i].x['node']
+                end = next((j for j in range(i + 1, len(evs)) if evs[j].kind in ('ITER', 'LOOPEXIT', 'LOOPCUT')
+                            and (evs[j].x or {}).get('node') is node), len(evs))
+                seg = evs[i + 1:end]
+                calls = [e for e in seg if e.kind == 'CALL' and e.c == '_inform_' + X
+                         and ('field:' + fld) in (e.x.get('recv_tags') or ())]
+                conds = [e for e in seg if e.kind == 'COND' and e.c != 'conjunct']
+                other = [e for e in conds if not (('field:' + fld) in ((e.x or {}).get('tags') or ()) and isinstance(
+                    (e.x or {}).get('node'), (ast.Name, ast.Compare)) and not any(
+                        isinstance(y, ast.Attribute) for y in ast.walk(e.x['node'])))]
+                if other:
+                    bad_bind = bad_bind or (evs, 'whether a neighbour is informed depends on %s, not only on the neighbour existing'
+                                            % src(other[0].x['node']))
+                present = all(bool(e.b) for e in conds) if conds else True
+                if present:
+                    if len(calls) != 1:
+                        bad_bind = bad_bind or (evs, 'an existing neighbour in self.%s is informed %d times' % (fld, len(calls)))
+                    elif ('p:' + param) not in (calls[0].x.get('arg0_tags') or ()):
+                        bad_bind = bad_bind or (evs, 'a neighbour is informed of something other than the argument')
+                    else:
+                        dirs_seen.add(fld)
+                elif calls:
+                    bad_bind = bad_bind or (evs, 'a missing neighbour is dereferenced')
+        R.ob('CONFLICT-RAISES', con, 'raise', n_conf > 0 and bad_raise is None,
+             'no raise on the branch "already bound and different": a conflicting %s would silently split the pipeline' % X,
+             ctx.where(fn, fn.node.lineno), fmt_path(bad_raise) if bad_raise else None, n_conf)
+        ok_bind = n_bind > 0 and bad_bind is None and dirs_seen == {'upstreams', 'downstreams'}
+        R.ob('CONFLICT-RAISES', con, 'bind-and-percolate', ok_bind,
+             '_inform_%s does not bind the value and percolate it to both upstreams and downstreams (%s)'
+             % (X, bad_bind[1] if bad_bind else 'directions informed: %s' % sorted(dirs_seen)),
+             ctx.where(fn, fn.node.lineno), fmt_path(bad_bind[0]) if bad_bind else None, n_bind)
+        R.ob('CONFLICT-RAISES', con, 'no-rebind', bad_rebind is None, 'an already bound %s is overwritten' % X,
+             ctx.where(fn, fn.node.lineno), fmt_path(bad_rebind) if bad_rebind else None)
+        _check_inherit(ctx, R, X)
+
+
+def _check_inherit(ctx, R, X):
+    from ..symexpr import SymEval, nf
+    M = ctx.model
+    sfn = M.stream.methods.get('_set_' + X)
+    if sfn is None:
+        raise AnalysisError('anchor vanished: Stream._set_' + X)
+    sp = sfn.params()[1]
+    scon = ctx.construct(sfn)
+    paths = [r for r in SymEval(M, M.stream, no_splice=('_inform_' + X,)).run(sfn) if not r.raised]
+    bad = None
+    inherited = False
+    for r in paths:
+        explicit = None
+        for c, o in r.conds:
+            k = c.replace(' ', '')
+            if k == '%sisnotNone' % sp:
+                explicit = o
+            elif k == '%sisNone' % sp:
+                explicit = not o
+        informs = [c for c, s_, l in r.calls if nf(c).startswith('self._inform_%s(' % X)]
+        if explicit is not False:       # explicit value (or not distinguished): must go through _inform_X(value)
+            if explicit is True and (len(informs) != 1 or nf(informs[0]) != 'self._inform_%s(%s)' % (X, sp)):
+                bad = bad or 'an explicit %s is not routed through _inform_%s(%s): no conflict check, no percolation' % (X, X, sp)
+        if explicit is not True:
+            if informs:
+                bad = bad or '_inform_%s is called although no explicit value was given' % X
+            for f, v, s_, l in r.stores:
+                if f != X:
+                    continue
+                t = nf(v)
+                if t == 'None':
+                    continue
+                ok = False
+                if t == 'ELEM(self.upstreams).%s' % X and l and l[-1][0].replace(' ', '') == 'self.upstreams':
+                    ok = True
+                elif isinstance(v, ast.Call) and nf(v.func) == 'next' and v.args and isinstance(v.args[0], ast.GeneratorExp) \
+                        and len(v.args[0].generators) == 1:
+                    g = v.args[0].generators[0]
+                    if nf(g.iter) == 'self.upstreams' and isinstance(g.target, ast.Name) \
+                            and nf(v.args[0].elt) == '%s.%s' % (g.target.id, X) and (len(v.args) == 1 or nf(v.args[1]) == 'None'):
+                        ok = True
+                if ok:
+                    inherited = True
+                else:
+                    bad = bad or 'without an explicit value self.%s becomes %s, which is not the %s of an upstream' % (X, src(v)[:70], X)
+    if bad is None and not inherited:
+        bad = '_set_%s(None) never takes the %s of an upstream' % (X, X)
+    R.ob('INHERIT', scon, X, bad is None, bad or '', ctx.where(sfn, sfn.node.lineno), None, len(paths))
 
 
 # ----------------------------------------------------------------------------- constructor chains
@@ -321,7 +394,35 @@ def check_thread_site(ctx, R):
             for x in ast.walk(n) if not isinstance(n, (ast.FunctionDef, ast.AsyncFunctionDef, ast.ClassDef)) else []:
                 if isinstance(x, ast.Call) and src(x.func) in ('threading.Thread', 'Thread', 'IOLoop'):
                     sites.append((None, x))
-    outside = [(f, n) for f, n in sites if f is not gil]
+    # a private module-level helper that only get_io_loop calls is part of get_io_loop (extracted code); the path
+    # obligations below see through it (helper splicing)
+    allowed = {gil}
+    changed = True
+    while changed:
+        changed = False
+        for f, n in sites:
+            if f is None or f in allowed or f.owner is not None or f.parent is not None or not f.name.startswith('_') \
+                    or f.module is not gil.module:
+                continue
+            refs = []
+            for g in M.all_funcs():
+                for x in own_nodes(g.node):
+                    if isinstance(x, ast.Name) and x.id == f.name and isinstance(x.ctx, ast.Load):
+                        refs.append((g, x))
+                    if isinstance(x, ast.Attribute) and x.attr == f.name:
+                        refs.append((None, x))
+            for m_ in M.modules.values():
+                for top in m_.tree.body:
+                    if not isinstance(top, (ast.FunctionDef, ast.AsyncFunctionDef, ast.ClassDef)):
+                        for x in ast.walk(top):
+                            if isinstance(x, ast.Name) and x.id == f.name and isinstance(x.ctx, ast.Load):
+                                refs.append((None, x))
+                            if isinstance(x, ast.alias) and x.name == f.name:
+                                refs.append((None, x))
+            if refs and all(g in allowed for g, x in refs):
+                allowed.add(f)
+                changed = True
+    outside = [(f, n) for f, n in sites if f not in allowed]
     R.ob('THREAD-SITE', 'streamz', 'only-in-get_io_loop', not outside and len(sites) >= 2,
          'a thread / event loop is constructed outside get_io_loop: %s' % ', '.join(
              '%s:%d' % (f.file if f else '?', n.lineno) for f, n in outside),
